@@ -13,6 +13,9 @@ use std::time::Duration;
 // ---- panic capture --------------------------------------------------------------------------------
 
 static PANICS: Mutex<Vec<String>> = Mutex::new(Vec::new());
+/// role of the panicking thread, read off its backtrace: "pool" (worker_loop), "flush"
+/// (enforce_wal_limit), "other" (callers, flush jobs, background threads)
+static ROLES: Mutex<Vec<&'static str>> = Mutex::new(Vec::new());
 static ANY_PANIC: std::sync::atomic::AtomicBool = std::sync::atomic::AtomicBool::new(false);
 
 /// has any thread of this process panicked so far (a hang is then plausible; without any panic a
@@ -44,8 +47,17 @@ pub fn install_panic_hook() {
                 })
                 .unwrap_or_default();
             ANY_PANIC.store(true, std::sync::atomic::Ordering::SeqCst);
-            if let Ok(mut p) = PANICS.lock() {
+            let bt = std::backtrace::Backtrace::force_capture().to_string();
+            let role = if bt.contains("worker_loop") || bt.contains("start_worker_threads") {
+                "pool"
+            } else if bt.contains("enforce_wal_limit") {
+                "flush"
+            } else {
+                "other"
+            };
+            if let (Ok(mut p), Ok(mut r)) = (PANICS.lock(), ROLES.lock()) {
                 p.push(format!("{}: {}", file, msg));
+                r.push(role);
             }
         }));
     });
@@ -56,7 +68,17 @@ pub fn peek_panics() -> Vec<String> {
 }
 
 pub fn take_panics() -> Vec<String> {
+    let _ = ROLES.lock().map(|mut r| r.clear());
     std::mem::take(&mut *PANICS.lock().unwrap())
+}
+
+/// (role, text) of every panic recorded since the last take
+pub fn take_panic_records() -> Vec<(&'static str, String)> {
+    let mut p = PANICS.lock().unwrap();
+    let mut r = ROLES.lock().unwrap();
+    let texts = std::mem::take(&mut *p);
+    let roles = std::mem::take(&mut *r);
+    roles.into_iter().chain(std::iter::repeat("other")).zip(texts).collect()
 }
 
 /// stable bucket of a recorded panic: file + message skeleton
